@@ -27,7 +27,7 @@ BINOPS = {"Add": "+", "Sub": "-", "Mul": "*", "Div": "/", "Rem": "%", "Lt": "<",
 
 
 def fold(op, a, b):
-    if is_const(a) and is_const(b) and a[1] == b[1] and a[1] in ("usize", "f64"):
+    if is_const(a) and is_const(b) and a[1] == b[1] and a[1] in ("int", "f64"):
         x, y = a[2], b[2]
         try:
             if op == "+":
@@ -334,7 +334,7 @@ class Exec:
         if ty == "bool":
             return TRUE if c.get("int") == "1" else FALSE
         if "int" in c:
-            return C("usize" if ty == "usize" else ty, int(c["int"]))
+            return C("int", int(c["int"]))
         if ty == "()":
             return UNIT
         if "bits" not in c and c.get("text") is not None:
@@ -446,7 +446,7 @@ class Exec:
     def discr(self, v):
         if isinstance(v, tuple):
             if v[0] == "adt":
-                return C("isize", v[2][0])
+                return C("int", v[2][0])
             if v[0] == "gamma":
                 return mk_gamma(v[1], self.discr(v[2]), self.discr(v[3]))
             if v[0] == "bot":
@@ -792,6 +792,9 @@ class Exec:
             old = self.read_path(st, args[0][1])
             st.store.write(args[0][1], ("fill", old, cu(0), self.length(old), args[1]))
             return UNIT
+        m = re.search(r"fmt::rt::Argument::<.*>::new_(\w+)", n)
+        if m:
+            return ("fmtarg", m.group(1), dv[0])
         if re.search(r"vec::from_elem\b", n):
             return ("fromelem", args[0], args[1])
         if re.search(r"into_boxed_slice$", n) or re.search(r"IntoIterator.*into_iter$", n):
@@ -805,8 +808,16 @@ class Exec:
         for i, a in enumerate(args):
             if isinstance(a, tuple) and a[0] == "ref" and self._is_mut_ref(t, i) and a[1][0] == "self":
                 raise Unsupported("std call with &mut to state: " + name)
-        short_name = re.sub(r"<[^<>]*>", "", n)
-        return ("ucall", n, tuple(args), 0)
+        snap = []
+        for a in args:
+            if isinstance(a, tuple) and a[0] == "ref" and not isinstance(a[1][0], str):
+                try:
+                    snap.append(("ref_to", self.deref_val(st, a)))  # locals die with the frame: keep the value
+                    continue
+                except Unsupported:
+                    pass
+            snap.append(a)
+        return ("ucall", n, tuple(snap), 0)
 
 
 def fn_params(fn):
